@@ -1,12 +1,14 @@
 package mon
 
 import (
+	"sort"
 	"fmt"
 	"math/rand"
 	"reflect"
 	"strings"
 
 	mxj "github.com/clbanning/mxj/v2"
+	x2jw "github.com/clbanning/mxj/v2/x2j-wrapper"
 
 	"verif/internal/core"
 	"verif/internal/jv"
@@ -436,7 +438,21 @@ func (c18) Case(c *core.Ctx) {
 	for i := 0; i < n; i++ {
 		if r.Intn(4) == 0 {
 			// interleaved use of the library (must not disturb option state)
-			switch r.Intn(5) {
+			switch r.Intn(6) {
+			case 5:
+				// the legacy wrapper's decoders with the recast flag: they use the core's option state, they do not set it
+				d := c18docs[r.Intn(len(c18docs))]
+				switch r.Intn(4) {
+				case 0:
+					x2jw.DocToMap(d, true)
+				case 1:
+					x2jw.ByteDocToMap([]byte(d), true)
+				case 2:
+					x2jw.ToMap(strings.NewReader(d), true)
+				default:
+					x2jw.DocToJson(d, true)
+				}
+				hist = append(hist, "x2j-wrapper decode (recast)")
 			case 0:
 				mxj.NewMapXml([]byte(c18docs[r.Intn(len(c18docs))]), r.Intn(2) == 0)
 				hist = append(hist, "NewMapXml")
@@ -511,6 +527,32 @@ func (c18) Case(c *core.Ctx) {
 		if jsonBefore != "" {
 			if jsonAfter := jsonProbe(); jsonAfter != jsonBefore {
 				c.Violate("c18-interference:json", sc.name+" changed the behaviour of the JSON codec", core.D{"history": hist, "before": jsonBefore, "after": jsonAfter})
+				return
+			}
+		}
+		if sc.class == "attr-case" {
+			// the documented effect on the attribute / element queries: keys that begin with the prefix in force are the
+			// attributes, named by what follows the prefix - whatever characters the names themselves begin with
+			P, _ := mxj.VerifOptionSnapshot()["attrPrefix"].(string)
+			e := map[string]interface{}{"child": "v", "_plain": "w", "-dash": "x", "attr_y": "z", "a": "1"}
+			for _, nm := range []string{"id", "_x", "__y", "type", "attr_", "-h", "a", "@at", P + "dd", "r_t"} {
+				e[P+nm] = "val"
+			}
+			var wantA, wantE []string
+			for k := range e {
+				if P != "" && strings.HasPrefix(k, P) {
+					wantA = append(wantA, k[len(P):])
+				} else {
+					wantE = append(wantE, k)
+				}
+			}
+			sort.Strings(wantA)
+			sort.Strings(wantE)
+			gotA, ea := mxj.Map{"e": e}.Attributes("e")
+			gotE, ee := mxj.Map{"e": e}.Elements("e")
+			c.Count("attribute-name-probes")
+			if ea != nil || ee != nil || fmt.Sprint(gotA) != fmt.Sprint(wantA) || fmt.Sprint(gotE) != fmt.Sprint(wantE) {
+				c.Violate("c18-attr-prefix-queries", "Attributes / Elements do not list the keys with / without the attribute prefix in force (names as they follow the prefix)", core.D{"history": hist, "prefix": P, "Attributes": fmt.Sprint(gotA, ea), "expected_attributes": fmt.Sprint(wantA), "Elements": fmt.Sprint(gotE, ee), "expected_elements": fmt.Sprint(wantE)})
 				return
 			}
 		}
